@@ -26,6 +26,10 @@
 //                                              a new index with n appends is lzma_index_cat()ed; prints live memused per step
 //   dec <kind> <flags> <limit> <sets> <chunk> <hex>    kind = xz|alone|lzip|auto ; see run_decoder()
 //   decmt <threads> <flags> <limthr> <limstop> <sets> <chunk> <hex>
+//          with the H3 hook: "D<live>" = bytes live when SEQ_BLOCK_DIRECT_INIT has finished (deterministic: no workers,
+//          empty queue, cache cleared)
+//   decmtw <size> <ms> <count> <threads> <flags> <limthr> <limstop> <sets> <chunk> <hex>
+//          decmt with a slow allocator: the first <count> requests of exactly <size> bytes take <ms> milliseconds
 //   idx <limit> <sets> <chunk> <hex>        -> lzma_index_decoder
 //   idxbuf <limit> <hex>                    -> lzma_index_buffer_decode: "ret memlimit_out peak"
 //   finfo <limit> <sets> <hex>              -> lzma_file_info_decoder over a whole file in memory
@@ -271,15 +275,32 @@ static void op_dec(hp_line *l)
 	free(in);
 }
 
-static void op_decmt(hp_line *l)
+// H3 hook (hooks/h3-mtdec.patch). Weak: resolves to NULL when liblzma was built without the hook.
+extern void (*lzma_verif_mt_event)(unsigned ev, const void *p, uint64_t a, uint64_t b, uint64_t c) __attribute__((weak));
+static c09_counter *mt_ev_cnt;
+
+static void mt_ev_cb(unsigned ev, const void *p, uint64_t a, uint64_t b, uint64_t c)
+{
+	(void)p; (void)a; (void)b; (void)c;
+	// 118 = end of SEQ_BLOCK_DIRECT_INIT (main thread; the workers have been joined by threads_end())
+	if (ev == 118 && mt_ev_cnt != NULL) {
+		pthread_mutex_lock(&mt_ev_cnt->mu);
+		uint64_t live = mt_ev_cnt->live;
+		pthread_mutex_unlock(&mt_ev_cnt->mu);
+		printf("D%" PRIu64 " ", live);
+	}
+}
+
+static void op_decmt(hp_line *l, int o)
 {
 	lzma_mt mt = { 0 };
-	mt.threads = (uint32_t)hp_u64(l->tok[1]);
-	mt.flags = (uint32_t)hp_u64(l->tok[2]);
-	mt.memlimit_threading = hp_u64(l->tok[3]);
-	mt.memlimit_stop = hp_u64(l->tok[4]);
-	size_t chunk = (size_t)hp_u64(l->tok[6]);
-	size_t len; uint8_t *in = hp_hex(l->tok[7], &len);
+	mt.threads = (uint32_t)hp_u64(l->tok[o + 1]);
+	mt.flags = (uint32_t)hp_u64(l->tok[o + 2]);
+	mt.memlimit_threading = hp_u64(l->tok[o + 3]);
+	mt.memlimit_stop = hp_u64(l->tok[o + 4]);
+	size_t chunk = (size_t)hp_u64(l->tok[o + 6]);
+	size_t len; uint8_t *in = hp_hex(l->tok[o + 7], &len);
+	const int have_hook = &lzma_verif_mt_event != NULL;
 
 	summary_t u;
 	{
@@ -297,11 +318,17 @@ static void op_decmt(hp_line *l)
 		free(s.buf);
 	}
 	c09_counter cnt; lzma_allocator al; c09_counter_init(&cnt, &al);
+	if (o > 0) {
+		cnt.delay_size = hp_u64(l->tok[1]);
+		cnt.delay_ms = (uint32_t)hp_u64(l->tok[2]);
+		cnt.delay_count = (uint32_t)hp_u64(l->tok[3]);
+	}
 	lzma_stream strm = LZMA_STREAM_INIT; strm.allocator = &al;
-	sets_t s; sets_parse(&s, l->tok[5]);
+	sets_t s; sets_parse(&s, l->tok[o + 5]);
 	lzma_ret ret = lzma_stream_decoder_mt(&strm, &mt);
 	uint64_t out_total = 0;
 	printf("I%d/%" PRIu64 "/%" PRIu64 " ", (int)ret, lzma_memusage(&strm), lzma_memlimit_get(&strm));
+	if (have_hook) { mt_ev_cnt = &cnt; lzma_verif_mt_event = mt_ev_cb; }
 	if (ret == LZMA_OK)
 		ret = run_decoder(&strm, in, len, chunk, &s, &cnt, false, &out_total);
 	printf("R%d", (int)ret);
@@ -310,8 +337,9 @@ static void op_decmt(hp_line *l)
 	uint64_t usage_end = lzma_memusage(&strm), limit_end = lzma_memlimit_get(&strm);
 	uint64_t peak = cnt.peak;
 	lzma_end(&strm);
-	printf(" | in=%" PRIu64 " out=%" PRIu64 " crc=%" PRIu32 " peak=%" PRIu64 " end=%" PRIu64 "/%" PRIu64 " leak=%" PRIu64 "%s U=%d,%" PRIu64 ",%" PRIu64 ",%" PRIu32 ",%" PRIu64 "\n",
-			in_total, out_total, crc, peak, usage_end, limit_end, cnt.live, cnt.bad_free ? " BADFREE" : "",
+	if (have_hook) { lzma_verif_mt_event = NULL; mt_ev_cnt = NULL; }
+	printf(" | hook=%d in=%" PRIu64 " out=%" PRIu64 " crc=%" PRIu32 " peak=%" PRIu64 " end=%" PRIu64 "/%" PRIu64 " leak=%" PRIu64 "%s U=%d,%" PRIu64 ",%" PRIu64 ",%" PRIu32 ",%" PRIu64 "\n",
+			have_hook, in_total, out_total, crc, peak, usage_end, limit_end, cnt.live, cnt.bad_free ? " BADFREE" : "",
 			(int)u.ret, u.in, u.out, u.crc, u.peak);
 	free(s.buf);
 	free(in);
@@ -530,6 +558,7 @@ static void op_al_mtenc(hp_line *l, bool saturate)
 	lzma_ret ret = lzma_stream_encoder_mt(&strm, &mt);
 	uint64_t out = 0;
 	uint64_t init_live = cnt.live;
+	uint32_t ninit = cnt.nsizes;       // requests made by lzma_stream_encoder_mt() itself (deterministic order)
 	if (ret == LZMA_OK && saturate) {
 		strm.next_in = in;
 		strm.avail_in = len;
@@ -539,7 +568,8 @@ static void op_al_mtenc(hp_line *l, bool saturate)
 	} else if (ret == LZMA_OK) {
 		ret = run_encoder(&strm, in, len, &out);
 	}
-	printf("%d %" PRIu64 " | init=%" PRIu64 " peak=%" PRIu64 " out=%" PRIu64 " nalloc=%" PRIu64, (int)ret, est, init_live, cnt.peak, out, cnt.nalloc);
+	printf("%d %" PRIu64 " | init=%" PRIu64 " peak=%" PRIu64 " out=%" PRIu64 " nalloc=%" PRIu64 " ninit=%" PRIu32 " reqs=", (int)ret, est, init_live, cnt.peak, out, cnt.nalloc, ninit);
+	c09_print_sizes(&cnt, 0);
 	lzma_end(&strm);
 	printf(" leak=%" PRIu64 "%s\n", cnt.live, cnt.bad_free ? " BADFREE" : "");
 	free(in);
@@ -640,7 +670,9 @@ int main(void)
 		} else if (!strcmp(op, "dec") && l.ntok == 7) {
 			op_dec(&l);
 		} else if (!strcmp(op, "decmt") && l.ntok == 8) {
-			op_decmt(&l);
+			op_decmt(&l, 0);
+		} else if (!strcmp(op, "decmtw") && l.ntok == 11) {
+			op_decmt(&l, 3);
 		} else if (!strcmp(op, "idx") && l.ntok == 5) {
 			op_idx(&l);
 		} else if (!strcmp(op, "idxbuf") && l.ntok == 3) {
